@@ -1221,7 +1221,9 @@ def run_replay(R, obj, tier='quick'):
     event = f['event']
     _core.SINK_TTY = bool((obj.get('console') or {}).get('tty'))
     _core.CLOCK_RATE = (obj.get('console') or {}).get('clock_rate')
-    ref = run_reference(R, text, o, event, 4_000_000 * (8 if event == 'opcode' else 3 if event == 'xline' else 1))
+    # the reference is computed in a child of its own, so that the interrupted execution below is the first count
+    # of this process (some violations show only then)
+    ref = ref_in_child(R, text, o, event, 4_000_000 * (8 if event == 'opcode' else 3 if event == 'xline' else 1))
     if not ref['ok']:
         return None, 'reference: ' + ref['why']
     flags = set(obj['flags']) if obj.get('flags') else None
@@ -1237,9 +1239,10 @@ def run_replay(R, obj, tier='quick'):
     return viols, res.get('status')
 
 
-def _find(R, text, raw, o, target, event, order, driver, flags, mech, ks, force_closed=False):
+def _find(R, text, raw, o, target, event, order, driver, flags, mech, ks, force_closed=False, child_ref=False):
     "first k of ks at which the target violation class shows; (k, viol) or None"
-    ref = run_reference(R, text, o, event, 4_000_000 * (8 if event == 'opcode' else 3 if event == 'xline' else 1))
+    budget = 4_000_000 * (8 if event == 'opcode' else 3 if event == 'xline' else 1)
+    ref = ref_in_child(R, text, o, event, budget) if child_ref else run_reference(R, text, o, event, budget)
     if not ref['ok']:
         return None
     for k in ks:
@@ -1258,6 +1261,47 @@ def _find(R, text, raw, o, target, event, order, driver, flags, mech, ks, force_
     return None
 
 
+def ref_in_child(R, text, o, event, budget):
+    "the uninterrupted reference, computed in a forked child: the calling process has then still never counted"
+    return _core.fork_call(run_reference, (R, text, o, event, budget), timeout=600, what='C19 reference')
+
+
+def pristine_ref(task):
+    "reference of case idx for the pristine arm (runs in a child of its own); None if unusable"
+    R, seed, idx, tier = task
+    signal.signal(signal.SIGINT, signal.default_int_handler)
+    _, o, text, _, _ = make_case(seed, idx, tier)
+    _core.SINK_TTY = case_tty(idx)
+    _core.CLOCK_RATE = case_clock(idx)
+    ref = run_reference(R, text, o, 'line', ref_budget(idx, tier))
+    if not ref['ok'] or ref['T'] > LONG_COUNT:
+        return None
+    return dict(ok=True, T=ref['T'], actions=ref['actions'], rend=ref['rend'], fill_done=ref['fill_done'],
+                progress_chars=ref.get('progress_chars'))
+
+
+def pristine_exec(task):
+    """ONE interrupted execution of case idx as the first count its process ever runs (the child is forked from a
+    parent that imported the package and never built an Election).  Every other execution of the engine follows a
+    reference count in the same process; state that only the FIRST count of a process builds (a lazily filled cache,
+    a once-only initialisation) is interrupted half-way only here."""
+    R, seed, idx, tier, ref, k, order = task
+    signal.signal(signal.SIGINT, signal.default_int_handler)
+    _, o, text, raw, _ = make_case(seed, idx, tier)
+    _core.SINK_TTY = case_tty(idx)
+    _core.CLOCK_RATE = case_clock(idx)
+    res = run_faulted(R, text, o, 'line', k, 'raise', order, 'api', None, raw)
+    out = []
+    for v in check(ref, res):
+        v = dict(v)
+        fired = res.get('fired') or {}
+        v.update(idx=idx, event='line', k=k, mech='raise', order=list(order), driver='api', flags=None,
+                 site=list(fired.get('site') or ('?', '?', 0)), header=fired.get('header'),
+                 count_stdout_closed=False, pristine=True)
+        out.append(v)
+    return dict(idx=idx, k=k, status=res.get('status'), viol=out)
+
+
 def confirm_pristine(R, seed, viol, tier):
     """does this one interrupted execution show its violation class when it is the ONLY interrupted count the process
     has ever run?  Runs in a forked child.  A case explores thousands of interrupted counts in one process; on a tree
@@ -1271,7 +1315,7 @@ def confirm_pristine(R, seed, viol, tier):
     flags = set(viol['flags']) if viol.get('flags') else None
     force_closed = bool(viol.get('count_stdout_closed')) and viol['driver'] == 'main'
     got = _find(R, text, raw, o, vclass(viol), viol['event'], tuple(viol['order']), viol['driver'], flags,
-                viol['mech'], [viol['k']], force_closed)
+                viol['mech'], [viol['k']], force_closed, child_ref=True)
     return got is not None
 
 
